@@ -509,6 +509,23 @@ def _literal_items(M, fn, it: ast.AST, top=None):
 
 
 class _AttrCalls(ast.NodeTransformer):
+    def _flat(self, n):
+        # [a, *(), *["b"]] -> [a, "b"]: a starred literal display inside a display is spliced in
+        n = self.generic_visit(n)
+        if any(isinstance(x, ast.Starred) and isinstance(x.value, (ast.List, ast.Tuple)) and
+               not any(isinstance(y, ast.Starred) for y in x.value.elts) for x in n.elts):
+            elts = []
+            for x in n.elts:
+                if isinstance(x, ast.Starred) and isinstance(x.value, (ast.List, ast.Tuple)) and not any(isinstance(y, ast.Starred) for y in x.value.elts):
+                    elts.extend(x.value.elts)
+                else:
+                    elts.append(x)
+            n.elts = elts
+        return n
+
+    visit_List = _flat
+    visit_Tuple = _flat
+
     def visit_Call(self, n):
         n = self.generic_visit(n)
         if isinstance(n.func, ast.Name) and n.func.id == "getattr" and len(n.args) == 2 and isinstance(n.args[1], ast.Constant) and \
